@@ -8,6 +8,7 @@
 EXTENDS FeeMarket, TLC
 
 CONSTANTS Denoms,     \* change denominators tried
+          Mins,       \* minimum prices tried
           Sinces      \* elapsed seconds tried (must contain values < W, = W, > W, >= 2W, MAXU)
 
 VARIABLES prev, total, target, denom, min, since, win, last
@@ -17,7 +18,7 @@ U == 0..MAXU
 ZeroWin == [i \in 1..W |-> 0]
 
 PriceInit ==
-  /\ prev \in U /\ total \in U /\ target \in 1..MAXU /\ denom \in Denoms /\ min \in U /\ since \in Sinces
+  /\ prev \in U /\ total \in U /\ target \in 1..MAXU /\ denom \in Denoms /\ min \in Mins /\ since \in Sinces
   /\ win = ZeroWin /\ last = 0
 WindowInit ==
   /\ win \in [1..W -> U] /\ last \in U /\ since \in Sinces
